@@ -255,6 +255,15 @@ def main(argv=None):
             report.machinery("vacuous run: too few incremental/scratch comparisons")
         if pid == "C04" and (not v or v["cnt"].get("noop_rebuild", 0) < 10 or v["cnt"].get("cone", 0) < 5):
             report.machinery("vacuous run: too few no-op / cone comparisons")
+        if pid == "C01":
+            # Layer G: re-execution of a plan (spec/Recycle.tla) model checked and replayed
+            from checks import recycle
+            rs = recycle.run(report, args.tier, args.seed, pid)
+            report.coverage["recycle"] = rs
+            report.coverage["states"] = report.coverage.get("states", 0) + rs.get("states", 0)
+            report.coverage["traces_validated_against_impl"] = report.coverage.get("traces_validated_against_impl", 0) + rs.get("sequences", 0)
+            if rs.get("strict_invariant_violated_in_model"):
+                report.notes.append("Recycle.tla: the strict invariant DoneMeansInputsDeclared fails in the model (this is finding F15)")
     return report.finish()
 
 
